@@ -39,12 +39,12 @@ Definition exemptions : list (string * aspect * exemption) := [
 
   ("ocpp1.6.chargePoint.stopC", Ptr, Pinned LIFECYCLE [
       ("ocpp1.6.chargePoint.SendRequest", 3%Z, []); ("ocpp1.6.chargePoint.Start", 1%Z, []);
-      ("ocpp1.6.chargePoint.Stop", 4%Z, []); ("ocpp1.6.chargePoint.asyncCallbackHandler", 3%Z, [])]);
+      ("ocpp1.6.chargePoint.Stop", 4%Z, []); ("ocpp1.6.chargePoint.asyncCallbackHandler", 0%Z, [])]);
   ("ocpp1.6.chargePoint.stopC", Content, Pinned LIFECYCLE [("ocpp1.6.chargePoint.Stop", 4%Z, [])]);
   ("ocpp2.0.1.chargingStation.stopC", Ptr, Pinned LIFECYCLE [
       ("ocpp2.0.1.chargingStation.SendRequest", 3%Z, []); ("ocpp2.0.1.chargingStation.Start", 1%Z, []);
       ("ocpp2.0.1.chargingStation.StartWithRetries", 1%Z, []); ("ocpp2.0.1.chargingStation.Stop", 4%Z, []);
-      ("ocpp2.0.1.chargingStation.asyncCallbackHandler", 3%Z, [])]);
+      ("ocpp2.0.1.chargingStation.asyncCallbackHandler", 0%Z, [])]);
   ("ocpp2.0.1.chargingStation.stopC", Content, Pinned LIFECYCLE [("ocpp2.0.1.chargingStation.Stop", 4%Z, [])]);
   ("ocppj.DefaultClientDispatcher.timer", Ptr, Pinned LIFECYCLE [
       ("ocppj.DefaultClientDispatcher.Pause", 0%Z, [(mu_cd, 2%Z)]); ("ocppj.DefaultClientDispatcher.Resume", 0%Z, []);
